@@ -282,10 +282,39 @@ Definition abort_trace (its : list item) : list call :=
   ++ map (fun it => Unlink (pf_path (it_file it))) its
   ++ map (fun it => Unlink (pf_path (it_marker it))) its.
 
-Inductive op := OCommit (c : commit) | OAbort (its : list item).
+(* A publish sequence whose k-th call (k = 0 .. 3: temp creation, write, fsync -- or the descriptor
+   opened for it --, rename) FAILS with an OS error: the calls before it were issued, the failing call
+   has no effect, and the routine's handler removes the temp file if it had been created and re-raises
+   (write_file: `except Exception: os.remove(temp_path); raise`; DataFileWriter.close likewise). *)
+Definition failed_of (prog : list call) (tmp : path) (k : nat) : list call :=
+  firstn k prog ++ match k with O => [] | S _ => [Unlink tmp] end.
+
+(* A transaction whose append_data FAILED that way, after `its` had been written: either the marker's
+   publish failed (fl = None), or the marker mk was published and the data file's publish failed
+   (fl = Some f).  append_data raises, the transaction is rolled back (Transaction.__exit__ ->
+   _rollback: written data files, then registered markers), nothing is committed. *)
+Definition fail_trace (its : list item) (mk : pubfile) (fl : option pubfile) (k : nat) : list call :=
+  flat_map (pub_item true) its
+  ++ match fl with
+     | None => failed_of (publish_meta (pf_path mk) (pf_content mk)) (tmp_of (pf_path mk)) k
+     | Some f => publish_meta (pf_path mk) (pf_content mk)
+                 ++ failed_of (publish_data (pf_path f) (pf_content f)) (tmp_of (pf_path f)) k
+     end
+  ++ map (fun it => Unlink (pf_path (it_file it))) its
+  ++ map (fun it => Unlink (pf_path (it_marker it))) its
+  ++ match fl with None => [] | Some _ => [Unlink (pf_path mk)] end.
+
+Inductive op :=
+| OCommit (c : commit)
+| OAbort (its : list item)
+| OFail (its : list item) (mk : pubfile) (fl : option pubfile) (k : nat).
 
 Definition trace_of_op (o : op) : list call :=
-  match o with OCommit c => trace_of_commit c | OAbort its => abort_trace its end.
+  match o with
+  | OCommit c => trace_of_commit c
+  | OAbort its => abort_trace its
+  | OFail its mk fl k => fail_trace its mk fl k
+  end.
 
 Definition trace_of (ops : list op) : list call := flat_map trace_of_op ops.
 
@@ -296,8 +325,16 @@ Definition names_of_commit (c : commit) : list path :=
 Definition names_of_abort (its : list item) : list path :=
   map (fun it => pf_path (it_marker it)) its ++ map (fun it => pf_path (it_file it)) its.
 
-Definition files_of_op (o : op) : list pubfile := match o with OCommit c => files_of_commit c | OAbort _ => [] end.
-Definition names_of_op (o : op) : list path := match o with OCommit c => names_of_commit c | OAbort its => names_of_abort its end.
+Definition names_of_fail (its : list item) (mk : pubfile) (fl : option pubfile) : list path :=
+  names_of_abort its ++ pf_path mk :: match fl with None => [] | Some f => [pf_path f] end.
+
+Definition files_of_op (o : op) : list pubfile := match o with OCommit c => files_of_commit c | _ => [] end.
+Definition names_of_op (o : op) : list path :=
+  match o with
+  | OCommit c => names_of_commit c
+  | OAbort its => names_of_abort its
+  | OFail its mk fl _ => names_of_fail its mk fl
+  end.
 Definition files_of (ops : list op) : list pubfile := flat_map files_of_op ops.
 
 Fixpoint lookup_pub (k : path) (l : list pubfile) : option content :=
@@ -354,8 +391,20 @@ Definition wf_abort (used : list path) (its : list item) : bool :=
   && forallb (fun p => negb (mem p used)) (names_of_abort its)
   && forallb (fun it => no_refs (it_marker it) && no_refs (it_file it)) its.
 
+Definition wf_fail (used : list path) (its : list item) (mk : pubfile) (fl : option pubfile) (k : nat) : bool :=
+  forallb name_ok (names_of_fail its mk fl)
+  && nodup_b (names_of_fail its mk fl)
+  && forallb (fun p => negb (mem p used)) (names_of_fail its mk fl)
+  && forallb (fun it => no_refs (it_marker it) && no_refs (it_file it)) its
+  && no_refs mk && match fl with None => true | Some f => no_refs f end
+  && (k <? 4)%nat.
+
 Definition wf_op (used avail : list path) (o : op) : bool :=
-  match o with OCommit c => wf_commit used avail c | OAbort its => wf_abort used its end.
+  match o with
+  | OCommit c => wf_commit used avail c
+  | OAbort its => wf_abort used its
+  | OFail its mk fl k => wf_fail used its mk fl k
+  end.
 
 Fixpoint wf_from (used avail : list path) (ops : list op) : bool :=
   match ops with
